@@ -1355,13 +1355,25 @@ func (self *BinaryServerProtocol) ProcessParse(buf []byte) error {
 	return nil
 }
 
+func isValidLockDataFrame(buf []byte) bool {
+	if len(buf) < 6 {
+		return false
+	}
+	if buf[5]&protocol.LOCK_DATA_FLAG_CONTAINS_PROPERTY != 0 {
+		if len(buf) < 8 || 8+(int(buf[6])|int(buf[7])<<8) > len(buf) {
+			return false
+		}
+	}
+	return true
+}
+
 func (self *BinaryServerProtocol) ProcessParseLockData() (*protocol.LockCommandData, error) {
 	buf, err := self.stream.ReadBytesFrame()
 	if err != nil {
 		return nil, err
 	}
-	if len(buf) < 6 {
-		return nil, errors.New("lock data frame too short")
+	if !isValidLockDataFrame(buf) {
+		return nil, errors.New("lock data frame error")
 	}
 	return protocol.NewLockCommandDataFromOriginBytes(buf), nil
 }
